@@ -31,7 +31,7 @@ def ota_session(rng, version, hist):
 
 
 CFG = {"quick": 300, "thorough": 12000, "lengths": [10, 20, 35], "malformed": 0.4,
-       "bias": {"stream": 2, "update": 1.5, "wake": 1.5, "ctl_set": 1.5}, "post": [ota_session, gw.text_echo_burst, add_probe]}
+       "bias": {"stream": 2, "update": 1.5, "wake": 1.5, "ctl_set": 1.5}, "post": [ota_session, gw.text_echo_burst, gw.separator_value_burst, add_probe]}
 
 
 def probe_oracle(hist, obs_lines):
